@@ -5,6 +5,7 @@ import (
 	stdxml "encoding/xml"
 	"fmt"
 	"io"
+	"net/url"
 	"strconv"
 	"strings"
 
@@ -15,6 +16,7 @@ import (
 	"github.com/freeconf/yang/meta"
 	"github.com/freeconf/yang/node"
 	"github.com/freeconf/yang/nodeutil"
+	"github.com/freeconf/yang/parser"
 	fcxml "github.com/freeconf/yang/patch/xml"
 )
 
@@ -399,7 +401,92 @@ func c19renderPlain(e *c19elem, b *strings.Builder) {
 
 var c19wtr = &nodeutil.XMLWtr{}
 
+// a document read back is the same tree for every way of asking: entries of a list with several keys addressed by
+// key, names with dots and dashes (RFC 7950 identifiers), through both writers
+const c19keysYang = `module xk { namespace "urn:xk"; prefix xk; revision 2020-01-01;
+  container c { list route { key "color prefix"; leaf color { type string; } leaf prefix { type string; } leaf metric { type int32; }
+      container nh.info { leaf if.name { type string; } leaf-list via-1.a { type string; } } }
+    list tri { key "a b c"; leaf a { type int32; } leaf b { type boolean; } leaf c { type string; } leaf v { type string; } } }
+  leaf top.leaf_x { type string; }
+}`
+
+func c19keys(c *core.Ctx) {
+	m, err := parser.LoadModuleFromString(nil, c19keysYang)
+	if err != nil {
+		c.Violation(core.Replay{Kind: "harness", Summary: "c19keys module: " + err.Error(), NoInputFound: true})
+		return
+	}
+	type ent struct{ path, json string }
+	var ents []ent
+	var routes, tris []string
+	for i, k := range [][2]string{{"red", "10.0.0.0/8"}, {"blue", "10.0.0.0/8"}, {"blue", "192.168.0.0/16"}, {"red", "192.168.0.0/16"}, {"green", "::/0"}} {
+		j := fmt.Sprintf(`{"color":%q,"prefix":%q,"metric":%d,"nh.info":{"if.name":"eth%d.%d","via-1.a":["v%d","w.%d"]}}`, k[0], k[1], i+1, i, i, i, i)
+		routes = append(routes, j)
+		ents = append(ents, ent{"c/route=" + k[0] + "," + url.QueryEscape(k[1]), j})
+	}
+	for i, k := range [][3]string{{"1", "true", "x"}, {"2", "true", "x"}, {"1", "false", "x"}, {"1", "true", "y"}, {"2", "false", "y"}} {
+		j := fmt.Sprintf(`{"a":%s,"b":%s,"c":%q,"v":"t%d"}`, k[0], k[1], k[2], i)
+		tris = append(tris, j)
+		ents = append(ents, ent{"c/tri=" + k[0] + "," + k[1] + "," + k[2], j})
+	}
+	whole := `{"c":{"route":[` + strings.Join(routes, ",") + `],"tri":[` + strings.Join(tris, ",") + `]},"top.leaf_x":"dotted"}`
+	ents = append(ents, ent{"", whole}, ent{"c/route=red,nosuch", "nil"}, ent{"c/tri=2,true,y", "nil"})
+	for _, writer := range []string{"doc-compact", "doc-pretty", "stream"} {
+		var doc string
+		werr := safeDo(func() error {
+			src, err := nodeutil.ReadJSON(whole)
+			if err != nil {
+				return err
+			}
+			sel := node.NewBrowser(m, src).Root()
+			switch writer {
+			case "doc-compact":
+				doc, err = nodeutil.WriteXMLDoc(sel, false)
+			case "doc-pretty":
+				doc, err = nodeutil.WriteXMLDoc(sel, true)
+			default:
+				doc, err = nodeutil.WriteXML(sel)
+			}
+			return err
+		})
+		if werr != nil {
+			c.Violation(core.Replay{Kind: "property-failure", Class: "keys-write-" + writer, Summary: fmt.Sprintf("%s of a tree with compound keys and dotted names fails: %v", writer, werr), Input: map[string]interface{}{"yang": c19keysYang, "tree": whole}})
+			continue
+		}
+		for _, e := range ents {
+			var got string
+			rerr := safeDo(func() error {
+				n, err := nodeutil.ReadXMLDoc(strings.NewReader(doc))
+				if err != nil {
+					return err
+				}
+				sel, err := node.NewBrowser(m, n).Root().Find(e.path)
+				if err != nil {
+					return err
+				}
+				if sel == nil {
+					got = "nil"
+					return nil
+				}
+				got, err = nodeutil.WriteJSON(sel)
+				return err
+			})
+			if rerr != nil {
+				got = "error " + short(rerr.Error())
+			}
+			c.Evaluations++
+			c.Count("read_back_by_key", writer)
+			c.Distinct("c19keys " + writer + e.path)
+			if got != e.json {
+				c.Violation(core.Replay{Kind: "property-failure", Class: "keys-read-" + writer, Summary: fmt.Sprintf("%s, read back, Find(%q) gives %s, the tree written holds %s", writer, e.path, short(got), short(e.json)),
+					Input: map[string]interface{}{"yang": c19keysYang, "tree": whole, "document": doc, "find": e.path}, Impl: got, Spec: e.json})
+			}
+		}
+	}
+}
+
 func C19(c *core.Ctx) {
+	c19keys(c)
 	c.Rule = "generated schemas (every built-in leaf type, leaf-lists, containers, keyed lists, choices, nodes of an imported module's grouping incl. an identityref, a leaf added by augment into that grouping's container) × conforming trees whose strings cover markup, quotes, CDATA terminators, leading/trailing/inner white space, tab/CR/LF, non-ASCII × writers {WriteXMLDoc compact, WriteXMLDoc pretty, WriteXML (streaming XMLWtr), one XMLWtr reused for every document}: (i) output parsed by encoding/xml in strict mode as one root element and compared with the expected element tree (names, namespaces, text), (ii) output compared byte for byte with the Lean writer models (tree / stream / pretty), (iii) ReadXMLDoc + UpsertFrom into a fresh reference store compared with the original tree and with the Lean reader model, as written and after a sibling interleaving that keeps the order of same-named elements, with same-named elements of a foreign namespace inserted, and with all namespaces dropped, (iv) patch/xml EscapeText against the Lean escaper on the string pool and random strings. non-trivial = tree with ≥1 list entry or nested container; distinct by (schema, tree, writer, variant)"
 	c.Assumptions = append(c.Assumptions,
 		"encoding/xml (Strict) of the Go standard library is the XML 1.0 well-formedness oracle on the byte level; the Lean theorems are on the token level plus the character-data codec",
